@@ -203,8 +203,20 @@ func c09NumOracle(src string, neg bool) (string, bool) {
 			base = 2
 		}
 		n, ok := new(big.Int).SetString(low[2:], base)
-		if !ok || n.Cmp(c09Two64) >= 0 {
-			return "", false // hex floats, separators, and integers beyond UInt64: no golden, not in the domain
+		if !ok {
+			return "", false // hex floats, separators: no golden, not in the domain
+		}
+		if n.Cmp(c09Two64) >= 0 && base == 2 {
+			return "", false // binary integers beyond UInt64: no golden establishes ClickHouse's reading, not in the domain
+		}
+		if n.Cmp(c09Two64) >= 0 {
+			// "anything larger … as Float64_": by value, i.e. the double nearest to the integer, in the shortest digits
+			x, _ := new(big.Float).SetInt(n).Float64()
+			if math.IsInf(x, 0) {
+				return "", false
+			}
+			_, d, e := c09Shortest(x)
+			return "Float64_" + c09FloatStyle(neg, d, e), true
 		}
 		return c09IntByValue(n, neg, "")
 	}
